@@ -763,6 +763,27 @@ Section DocRel.
       rewrite (rsel_sels_nil _ _ Hf), (rsel_name _ _ Hf). reflexivity.
     Qed.
 
+    Lemma root_typename_fields_of_rel x : forall y, rsel x y ->
+      PermR rsel (root_typename_fields_of x) (root_typename_fields_of y).
+    Proof.
+      induction x as [p al n args dirs sp sels IH|p n dirs|p tc dirs sp sels IH] using selection_ind';
+        intros y Hxy.
+      - inversion Hxy; subst. cbn [root_typename_fields_of].
+        destruct (name_eqb n "__typename"); [apply PermR_one, Hxy|apply PermR_nil].
+      - inversion Hxy; subst. apply PermR_nil.
+      - pose proof (rsel_sels_rsels _ _ _ _ _ Hxy) as Hss. cbn [sel_sels] in Hss.
+        inversion Hxy; subst. cbn [root_typename_fields_of].
+        destruct tc as [tc|]; [apply PermR_nil|].
+        apply (PermR_flat_map rsel); [apply rsels_PermR, Hss|].
+        intros a b Ha Hab. rewrite Forall_forall in IH. apply IH; assumption.
+    Qed.
+    Lemma root_typename_fields_rel l l' : rsels l l' ->
+      PermR rsel (root_typename_fields l) (root_typename_fields l').
+    Proof.
+      intro H. unfold root_typename_fields. apply (PermR_flat_map rsel); [apply rsels_PermR, H|].
+      intros a b _ Hab. apply root_typename_fields_of_rel, Hab.
+    Qed.
+
     Lemma r_fields_on_correct_type : v_fields_on_correct_type s d = v_fields_on_correct_type s d'.
     Proof.
       unfold v_fields_on_correct_type. f_equal.
@@ -771,7 +792,8 @@ Section DocRel.
       - apply (F2_existsb rop). eapply Forall2_impl_in; [|apply rdoc_ops, Hd]. intros o o' _ H.
         destruct (rop_fields _ _ _ _ _ _ _ H) as (Hk & _ & _ & _ & _ & _ & Hs). rewrite <- Hk.
         destruct (o_kind o); try reflexivity.
-        apply (PermR_existsb rsel); [apply rsels_PermR, Hs|]. intros x y _ []; reflexivity.
+        apply root_typename_fields_rel, PermR_length in Hs.
+        destruct (root_typename_fields (o_sels o)), (root_typename_fields (o_sels o')); try reflexivity; discriminate.
     Qed.
 
     Lemma r_possible_fragment_spreads : v_possible_fragment_spreads s d = v_possible_fragment_spreads s d'.
